@@ -233,6 +233,12 @@ class Cases:
         self.pairs = pairs
 
 
+class BoolVal:
+    """A boolean whose truth is the indicator polynomial `ind`."""
+    def __init__(self, ind):
+        self.ind = ind
+
+
 class Opaque:
     """A value the analysis does not track (flags bytes etc.). Using it as a length is an error."""
 
@@ -258,6 +264,14 @@ def as_poly(v, what=""):
 
 def mix(ind, a, b):
     """Value `a` under indicator `ind`, else `b`."""
+    def _b(x):
+        if isinstance(x, BoolVal):
+            return x.ind
+        if isinstance(x, bool):
+            return Poly.const(1 if x else 0)
+        return None
+    if _b(a) is not None and _b(b) is not None:
+        return BoolVal(ind * _b(a) + ind_not(ind) * _b(b))
     if isinstance(a, Opaque) and isinstance(b, Opaque):
         return a
     if isinstance(a, (Poly, int)) and isinstance(b, (Poly, int)) and not isinstance(a, bool) and not isinstance(b, bool):
@@ -292,6 +306,7 @@ class Interp:
         self.depth = 0
         self.assumptions = set()
         self.trace = []             # (kind, detail) sequence of wire items in order (write mode)
+        self.enums = {}             # path -> enum adt of `is(path, Variant)` atoms
 
     # -- entry points
     def run_fn(self, fid, args):
@@ -338,6 +353,10 @@ class Interp:
             for s in pat["subs"]:
                 self.bind(fr, s["pat"], self.project(val, "%s.%s" % (pat["variant"], s["field"]), s["idx"]))
             return
+        if k in ("Const", "Range"):
+            return
+        if k == "Or":
+            return self.bind(fr, pat["pats"][0], val)
         raise Unsupported("pattern %s" % k)
 
     def project(self, val, name, idx=None):
@@ -377,15 +396,33 @@ class Interp:
                     a = Poly.atom(("some", v.path))
                     return a if name == "is_some" else ind_not(a)
             if name == "is_empty" and len(e["args"]) == 1:
-                raise Unsupported("is_empty() condition")
+                v = self.eval(fr, e["args"][0])
+                if isinstance(v, PathVal):
+                    return Poly.atom(("empty", v.path))
         if k == "Let":
             raise Unsupported("let-condition outside if")
         v = self.eval(fr, e)
-        if isinstance(v, PathVal) and e.get("ty") == "bool":
-            return Poly.atom(("true", v.path))
+        b = self.bool_of(v, e)
+        if b is not None:
+            return b
+        raise Unsupported("condition %s" % pp(e)[:120])
+
+    def bool_of(self, v, e=None):
+        if isinstance(v, BoolVal):
+            return v.ind
         if isinstance(v, bool):
             return Poly.const(1 if v else 0)
-        raise Unsupported("condition %s" % pp(e)[:120])
+        if isinstance(v, PathVal) and (e is None or e.get("ty") in ("bool", "&bool", None)):
+            return Poly.atom(("true", v.path))
+        if isinstance(v, Cases):
+            tot = Poly()
+            for ind, x in v.pairs:
+                bx = self.bool_of(x)
+                if bx is None:
+                    return None
+                tot = tot + ind * bx
+            return tot
+        return None
 
     def eq_ind(self, l, r, e):
         for a, b in ((l, r), (r, l)):
@@ -486,6 +523,11 @@ class Interp:
             a = as_poly(self.eval(fr, e["l"]), pp(e["l"]))
             b = as_poly(self.eval(fr, e["r"]), pp(e["r"]))
             return {"Add": a + b, "Sub": a - b, "Mul": None}[op] if op != "Mul" else a * b
+        if op in ("Eq", "Ne"):
+            try:
+                return BoolVal(self.cond(fr, e))
+            except Unsupported:
+                pass
         # bit twiddling / comparisons produce values that are never lengths
         self.eval_quiet(fr, e["l"])
         self.eval_quiet(fr, e["r"])
@@ -500,9 +542,17 @@ class Interp:
             return Opaque("untracked")
 
     def e_Logical(self, fr, e):
-        return Opaque("logical")
+        try:
+            return BoolVal(self.cond(fr, e))
+        except Unsupported:
+            return Opaque("logical")
 
     def e_Unary(self, fr, e):
+        if e["op"] == "Not":
+            try:
+                return BoolVal(self.cond(fr, e))
+            except Unsupported:
+                pass
         self.eval_quiet(fr, e["e"])
         return Opaque("unary")
 
@@ -626,6 +676,7 @@ class Interp:
                 ind = a if p["variant"] == "Some" else ind_not(a)
             else:
                 ind = Poly.atom(("is", scrut.path, p["variant"]))
+                self.enums[scrut.path] = p["adt"]
             return ind, (lambda: self.bind(fr, p, scrut))
         if k == "Const":
             raise Unsupported("constant pattern in length-relevant match")
@@ -898,6 +949,30 @@ def refine_default(F, d):
         else:
             m[(atoms, g)] = m.get((atoms, g), 0) + c
     return refine_default(F, d0) + refine_default(F, Poly(m))
+
+
+def onehot_normalise(F, p, enums):
+    """Exactly one `is(path, V)` atom of an enum-typed path holds: eliminate the last variant."""
+    for path, adt in enums.items():
+        a = F.adts.get(adt)
+        if not a:
+            continue
+        names = [v["name"] for v in a["variants"]]
+        last = ("is", path, names[-1])
+        if last not in p.atoms():
+            continue
+        repl = Poly.const(1)
+        for n in names[:-1]:
+            repl = repl - Poly.atom(("is", path, n))
+        out = Poly()
+        for (atoms, g), c in p.m.items():
+            if last in atoms:
+                rest = Poly({(atoms - {last}, g): c})
+                out = out + rest * repl
+            else:
+                out = out + Poly({(atoms, g): c})
+        p = out
+    return p
 
 
 def witness(d):
